@@ -233,7 +233,7 @@ PROPS["C04"] = {
 
 PROPS["C03"] = {
     "rule": "cases: a random start term over LArith (num/var/add/mul/sum-binder/let-binder, free slots p and q, depth 2-4, a third with shadowing binders), a random subset of 2-8 rules from the "
-            "pool valid in the chosen model (M1 = F_7 with sums over {0,1,2}; M2 = F_3 with whole-field sums; conditional rules, rules moving terms under binders, re-binding, let push-down, "
+            "pool valid in the chosen model (M1 = F_7 with sums over {0,1,2}; M2 = F_3 with whole-field sums; conditional rules (side conditions built either by the harness or from the crate's slot_free_in / not / and / or), rules moving terms under binders, re-binding, let push-down, "
             "b[x := t] right sides), 1-5 iterations by apply_rewrites or Runner, SynExprSubst or ExtractionSubst. After every iteration every e-node of every class (enodes and enodes_applied) is "
             "evaluated against the class value (own least-rank representative) under all environments when p^slots <= 343, else 10 random ones; redundant slots get independent random values; the "
             "start term's value must equal its class's. Non-trivial = distinct (term, rule set, model) run in which a rule mentioning a slot was in the set and the e-graph grew.",
@@ -241,7 +241,7 @@ PROPS["C03"] = {
                     "a fault invisible in both finite models for all sampled environments is not seen"],
     "quick": [{"variant": "default", "cases": 3000, "timeout": 900}, {"variant": "explanations", "cases": 720, "timeout": 900}],
     "thorough": [{"variant": "default", "cases": 40000, "params": {"case_timeout": 120}, "timeout": 3400}, {"variant": "checks", "cases": 3000, "params": {"case_timeout": 120}, "timeout": 3400}, {"variant": "explanations", "cases": 3000, "params": {"case_timeout": 120}, "timeout": 3400}],
-    "floors": {"any": {"runs": 300, "enode_evaluations": 200000, "root_evaluations": 10000, "runs_with_subst_rule": 30, "runs_with_conditional_rule": 100, "runs_extraction_subst": 100}},
+    "floors": {"any": {"runs": 300, "enode_evaluations": 200000, "root_evaluations": 10000, "runs_with_subst_rule": 30, "runs_with_conditional_rule": 100, "conditions_built_from_crate_combinators": 50, "runs_extraction_subst": 100}},
 }
 PROPS["C14"] = {
     "rule": "cases: histories of 3-10 public calls over LArith with the product analysis (min size, constant value in F_7 with a modify hook that inserts the constant and unions, min depth): "
